@@ -162,6 +162,33 @@ def primed(h, codes, signed, n, f, **cfg):
     return x
 
 
+def warm(x, extra=()):
+    """apply every kind of read-only operation to x (errors ignored): whatever an implementation remembers about an object, it remembers now."""
+    old_out = (x.config.op_out, x.config.op_out_like)
+    x.config.op_out, x.config.op_out_like = None, None
+    for g in (lambda: ~x, lambda: x & 1, lambda: x >> 1, lambda: x << 1, lambda: x.bin(), lambda: x.hex(), lambda: x.base_repr(10),
+              lambda: x.get_val(), lambda: x.astype(int), lambda: x.uraw(), lambda: x < 0, lambda: x + x, lambda: x * x,
+              lambda: np.sum(x), lambda: np.cumsum(x), lambda: np.max(x), lambda: np.min(x), lambda: np.sort(x), lambda: np.transpose(x),
+              lambda: np.prod(x) if x.size * x.n_word <= 60 else None, lambda: x.like(x)) + tuple(extra):
+        try:
+            g()
+        except Exception:
+            pass
+    x.config.op_out, x.config.op_out_like = old_out
+
+
+def overwrite_in_place(x, codes):
+    """write the codes (row-major over x's logical shape) into the existing value buffer, element by element."""
+    if x.ndim == 0:
+        x.set_val(codes[0], raw=True, index=())
+    else:
+        for k, idx in enumerate(np.ndindex(*x.shape)):
+            x.set_val(codes[k], raw=True, index=idx)
+    x.reset()
+    assert codes_of(x) == list(codes), 'in-place stores did not deliver the codes'
+    return x
+
+
 def disturb(x, y):
     """further results of the same operands are produced (and dropped) before the result under test is observed: a result
     is a value of its own — nothing that happens afterwards to objects the caller no longer holds may change it (C20, and the
